@@ -25,6 +25,7 @@ type roundCfg struct {
 	askEvery int   // every k-th message is an Ask (0 = none)
 	gap      time.Duration
 	reverse  bool // also B -> A at the same time
+	twoTargets bool // odd senders tell /recv2, even senders /recv
 }
 
 var syncSeq uint64 = 1 << 40
@@ -53,12 +54,17 @@ func (h *H) resync(from, to *Node, plan func(i int) Plan) bool {
 		return got
 	}
 	deadline := time.Now().Add(15 * time.Second)
+	wait := 60 * time.Millisecond
 	for time.Now().Before(deadline) {
-		if !tell(60 * time.Millisecond) {
+		if !tell(wait) {
+			// a loaded machine may simply need longer than the last wait: be more patient next time
+			if wait < 2*time.Second {
+				wait *= 2
+			}
 			continue
 		}
 		// a second sync on the same connection: when it has arrived, every earlier sync that is going to arrive has
-		if tell(2 * time.Second) {
+		if tell(5 * time.Second) {
 			return true
 		}
 	}
@@ -86,7 +92,11 @@ func (h *H) launch(src, dst *Node, cfg roundCfg, base uint32, r *lib.Rand) ([]ex
 		if err != nil {
 			return nil, nil, 0, err
 		}
-		b := &Burst{To: to, Gap: cfg.gap, Done: make(chan struct{}), AskTimeout: h.roundLimit() - 5*time.Second}
+		tgt := to
+		if cfg.twoTargets && s%2 == 1 {
+			tgt = RemoteRecv2(dst)
+		}
+		b := &Burst{To: tgt, Gap: cfg.gap, Done: make(chan struct{}), AskTimeout: h.roundLimit() - 5*time.Second}
 		for i := 1; i <= cfg.burst; i++ {
 			sz := cfg.sizes[r.Intn(len(cfg.sizes))]
 			var data []byte
@@ -115,8 +125,8 @@ func (h *H) launch(src, dst *Node, cfg roundCfg, base uint32, r *lib.Rand) ([]ex
 }
 
 // checkDelivery: the per-sender sequence seen by dst's receiver must be exactly what was sent.
-func (h *H) checkDelivery(tag string, dst *Node, from int, exps []expect, c lib.T) {
-	got := dst.Rec.Snapshot(from)
+func (h *H) checkDelivery(tag string, dst *Node, m0 marks, exps []expect, c lib.T) {
+	got := append(dst.Rec.Snapshot(m0.rec), dst.Rec2.Snapshot(m0.rec2)...)
 	by := map[uint32][]Got{}
 	for _, g := range got {
 		if g.Kind == KSync {
@@ -167,12 +177,16 @@ func (h *H) roundLimit() time.Duration {
 	return 25 * time.Second
 }
 
-type marks struct{ rec, df, rc, rf, dead, conns int }
+type marks struct{ rec, rec2, df, rc, rf, dead, conns int }
 
 func mark(n *Node) marks {
 	n.Barrier()
 	df, rc, _, _, _, dl, rf, _ := n.Ev.snapshotCounts()
-	return marks{rec: n.Rec.Len(), df: df, rc: rc, rf: rf, dead: dl, conns: n.Proxy.NConns()}
+	nc := 0
+	if n.Proxy != nil {
+		nc = n.Proxy.NConns()
+	}
+	return marks{rec: n.Rec.Len(), rec2: n.Rec2.Len(), df: df, rc: rc, rf: rf, dead: dl, conns: nc}
 }
 
 func (h *H) round(A, B *Node, cfg roundCfg, seed uint64) {
@@ -185,7 +199,22 @@ func (h *H) round(A, B *Node, cfg roundCfg, seed uint64) {
 	// a fresh connection per direction, set up under this round's chunking
 	cB0, cA0 := B.Proxy.NConns(), A.Proxy.NConns()
 	if !h.resync(A, B, plan) || (cfg.reverse && !h.resync(B, A, plan)) {
-		h.o.Monitor("c11-no-connection", nil, cfg.name+": no sync message got through a fresh connection within 15 s")
+		diag := ""
+		for _, n := range []*Node{A, B} {
+			n.Ev.mu.Lock()
+			tail := n.Ev.Trace
+			if len(tail) > 12 {
+				tail = tail[len(tail)-12:]
+			}
+			diag += fmt.Sprintf(" %s: last sender events %v, proxy connections %d;", n.Name, tail, n.Proxy.NConns())
+			n.Ev.mu.Unlock()
+		}
+		for _, c := range B.Proxy.Conns(0)[max(0, B.Proxy.NConns()-3):] {
+			c.mu.Lock()
+			diag += fmt.Sprintf(" B-proxy conn %d: mode %d hs %d bytes, from client %d, handed on %d, closed %v cut %v;", c.Idx, c.Plan.Mode, len(c.Hs), c.FromCli, c.pos, c.closed, c.cutDone)
+			c.mu.Unlock()
+		}
+		h.o.Monitor("c11-no-connection", nil, cfg.name+": no sync message got through a fresh connection within 15 s;"+diag)
 		h.abort = true
 		return
 	}
@@ -230,8 +259,8 @@ func (h *H) round(A, B *Node, cfg roundCfg, seed uint64) {
 		}
 		return time.Millisecond
 	}
-	okAB := waitUntil(left(), func() bool { return B.Rec.Len()-mB.rec >= total })
-	okBA := !cfg.reverse || waitUntil(left(), func() bool { return A.Rec.Len()-mA.rec >= total })
+	okAB := waitUntil(left(), func() bool { return B.Rec.Len()-mB.rec+B.Rec2.Len()-mB.rec2 >= total })
+	okBA := !cfg.reverse || waitUntil(left(), func() bool { return A.Rec.Len()-mA.rec+A.Rec2.Len()-mA.rec2 >= total })
 	for _, d := range append(donesAB, donesBA...) {
 		select {
 		case <-d:
@@ -246,9 +275,13 @@ func (h *H) round(A, B *Node, cfg roundCfg, seed uint64) {
 		h.abort = true
 	}
 	desc := lib.L(lib.S(cfg.name), lib.NI(cfg.senders), lib.NI(cfg.burst), lib.N(seed))
-	h.checkDelivery(cfg.name+" A->B", B, mB.rec, expAB, desc)
+	h.checkDelivery(cfg.name+" A->B", B, mB, expAB, desc)
 	if cfg.reverse {
-		h.checkDelivery(cfg.name+" B->A", A, mA.rec, expBA, desc)
+		h.checkDelivery(cfg.name+" B->A", A, mA, expBA, desc)
+	}
+	h.wireCheck(cfg.name+" A->B", connB, len(recB0), expAB, desc)
+	if cfg.reverse && connA != nil {
+		h.wireCheck(cfg.name+" B->A", connA, len(recA0), expBA, desc)
 	}
 	if got := int(A.AskOK.Load() - askOK0A); got != asksAB || A.AskBad.Load() != 0 {
 		d := ""
@@ -354,6 +387,135 @@ func (h *H) emitConnCase(kind string, dst *Node, c *PConn, from int, m marks, no
 	h.o.Case(kind, nontrivial, lib.L(lib.N(0), lib.L(ct)), observed(dst, m))
 }
 
+// directRound: the same concurrent mixed traffic between two systems that dial each other directly (no proxy)
+func (h *H) directRound(mixed []int) {
+	if h.abort {
+		return
+	}
+	E, err := StartDirectNode("E", 0)
+	if err != nil {
+		panic(err)
+	}
+	defer E.Stop()
+	F, err := StartDirectNode("F", 0)
+	if err != nil {
+		panic(err)
+	}
+	defer F.Stop()
+	n := 2
+	if h.tier == "thorough" {
+		n = 8
+	}
+	for it := 0; it < n; it++ {
+		cfg := roundCfg{name: fmt.Sprintf("direct-concurrent-6x40-mixed-%d", it), senders: 6, burst: 40, sizes: mixed, askEvery: 8, reverse: true, twoTargets: true}
+		r := lib.NewRand(h.seed*77 + uint64(it))
+		mE, mF := mark(E), mark(F)
+		ok0E, ok0F := E.AskOK.Load(), F.AskOK.Load()
+		expEF, d1, asksEF, err := h.launch(E, F, cfg, 100, r)
+		if err != nil {
+			panic(err)
+		}
+		expFE, d2, asksFE, err := h.launch(F, E, cfg, 200, r)
+		if err != nil {
+			panic(err)
+		}
+		total := cfg.senders * cfg.burst
+		limit := time.Now().Add(h.roundLimit())
+		left := func() time.Duration {
+			if d := time.Until(limit); d > 0 {
+				return d
+			}
+			return time.Millisecond
+		}
+		waitUntil(left(), func() bool { return F.Rec.Len()-mF.rec+F.Rec2.Len()-mF.rec2 >= total })
+		waitUntil(left(), func() bool { return E.Rec.Len()-mE.rec+E.Rec2.Len()-mE.rec2 >= total })
+		for _, d := range append(d1, d2...) {
+			select {
+			case <-d:
+			case <-time.After(left()):
+			}
+		}
+		time.Sleep(30 * time.Millisecond)
+		desc := lib.L(lib.S(cfg.name), lib.NI(cfg.senders), lib.NI(cfg.burst))
+		h.checkDelivery(cfg.name+" E->F", F, mF, expEF, desc)
+		h.checkDelivery(cfg.name+" F->E", E, mE, expFE, desc)
+		if got := int(E.AskOK.Load() - ok0E); got != asksEF || E.AskBad.Load() != 0 {
+			h.o.Monitor("c11-reply", desc, fmt.Sprintf("%s: %d Asks E->F, %d correct replies, %d wrong/failed", cfg.name, asksEF, got, E.AskBad.Load()))
+			E.AskBad.Store(0)
+		}
+		if got := int(F.AskOK.Load() - ok0F); got != asksFE || F.AskBad.Load() != 0 {
+			h.o.Monitor("c11-reply", desc, fmt.Sprintf("%s: %d Asks F->E, %d correct replies, %d wrong/failed", cfg.name, asksFE, got, F.AskBad.Load()))
+			F.AskBad.Store(0)
+		}
+		for _, nd := range []*Node{E, F} {
+			m := mE
+			if nd == F {
+				m = mF
+			}
+			df, _, _, _, _, dl, rf, _ := nd.Ev.snapshotCounts()
+			if df != m.df || rf != m.rf || dl != m.dead {
+				h.o.Monitor("c11-decode-failed", desc, fmt.Sprintf("%s: %s reported %d decode failures / %d invalid-length warnings / %d dead letters on a healthy direct link", cfg.name, nd.Name, df-m.df, rf-m.rf, dl-m.dead))
+			}
+		}
+		h.o.Stats["round:direct"]++
+		h.o.Stats["messages"] += 2 * total
+	}
+}
+
+// wireCheck: the bytes the proxy received from the sending system on this connection (from offset `from`, a frame
+// boundary) must be a sequence of WHOLE frames: each one the envelope of one XMsg, every sent message exactly once,
+// each sender's messages in its order (a frame written in several pieces with another sender's frame in between
+// shows up here as a frame that does not decode, whatever the receiver then makes of it)
+func (h *H) wireCheck(tag string, c *PConn, from int, exps []expect, desc lib.T) {
+	rec, _ := c.Record()
+	if from > len(rec) {
+		return
+	}
+	rec = rec[from:]
+	want := map[[2]uint64]int{}
+	pos := map[uint32]int{}
+	for _, e := range exps {
+		for i, m := range e.msgs {
+			want[[2]uint64{uint64(m.Sender), m.Seq}] = i
+		}
+	}
+	seen := map[[2]uint64]bool{}
+	off := 0
+	nframes := 0
+	for off < len(rec) {
+		if len(rec)-off < 4 {
+			h.o.Monitor("c11-wire-frames", desc, fmt.Sprintf("%s: the sender's byte stream ends inside a length prefix at offset %d (%d frames before)", tag, off, nframes))
+			return
+		}
+		n := int(uint32(rec[off])<<24 | uint32(rec[off+1])<<16 | uint32(rec[off+2])<<8 | uint32(rec[off+3]))
+		if n == 0 || n > 4<<20 || off+4+n > len(rec) {
+			h.o.Monitor("c11-wire-frames", desc, fmt.Sprintf("%s: after %d whole frames the sender's byte stream has length field %d at offset %d with %d bytes left: not a sequence of whole frames (a frame was not written atomically?)", tag, nframes, n, off, len(rec)-off-4))
+			return
+		}
+		x := decodeXMsgFrame(rec[off+4 : off+4+n])
+		if x == nil {
+			h.o.Monitor("c11-wire-frames", desc, fmt.Sprintf("%s: frame #%d (offset %d, %d bytes) of the sender's byte stream is not the envelope of a message that was sent", tag, nframes, off, n))
+			return
+		}
+		if x.Kind == KTell || x.Kind == KAsk {
+			k := [2]uint64{uint64(x.Sender), x.Seq}
+			i, ok := want[k]
+			if !ok || seen[k] || i != pos[x.Sender] {
+				h.o.Monitor("c11-wire-frames", desc, fmt.Sprintf("%s: frame #%d carries sender %d seq %d: unexpected, repeated or out of the sender's order on the wire", tag, nframes, x.Sender, x.Seq))
+				return
+			}
+			seen[k] = true
+			pos[x.Sender]++
+		}
+		off += 4 + n
+		nframes++
+	}
+	if len(seen) != len(want) {
+		h.o.Monitor("c11-wire-frames", desc, fmt.Sprintf("%s: %d messages sent, %d found on the wire", tag, len(want), len(seen)))
+	}
+	h.o.Stats["wire-checked-frames"] += nframes
+}
+
 // normalize: NewRef must accept what GetAddress/GetPath produce (idempotence of the normalisers)
 func (h *H) normalize() {
 	addrs := []string{"127.0.0.1:8080", " 127.0.0.1:8080 ", "localhost", "example.com", "example.com:1", "[::1]:80", "::1", "a:b", "", " ", "host:99999", "host:0",
@@ -414,6 +576,9 @@ func (h *H) runFrame() {
 	small := []int{0, 0, 1, 2, 3, 7, 16, 31, 64, 100, 200}
 	mid := []int{0, 1, 100, 1000, 4000, 4081, 4096, 5000, 9000}
 	thorough := h.tier == "thorough"
+	// several senders at once through one remoting mailbox, small and large envelopes mixed (a frame above 64 KiB
+	// needs several segments on the wire)
+	mixed := []int{0, 100, 100, 60 << 10, 70 << 10, 70 << 10, 200 << 10, 1 << 20}
 	rounds := []roundCfg{
 		{name: "pass-1x300", mode: ModePass, senders: 1, burst: 300, sizes: small, askEvery: 10, reverse: true},
 		{name: "one-byte-1x40", mode: ModeOne, senders: 1, burst: 40, sizes: small, askEvery: 7, reverse: true, pace: 20 * time.Microsecond},
@@ -427,6 +592,9 @@ func (h *H) runFrame() {
 		{name: "64k-2x40-large", mode: Mode64K, senders: 2, burst: 40, sizes: []int{0, 1000, 65536, 65537, 100000, 262144}, askEvery: 8, reverse: true},
 		{name: "64k-1x6-1MiB", mode: Mode64K, senders: 1, burst: 6, sizes: []int{1 << 20, 1<<20 - 1, 700000}, askEvery: 3, reverse: true},
 		{name: "random64k-2x12-large", mode: ModeRand, randMax: 65536, senders: 2, burst: 12, sizes: []int{0, 300000, 1 << 20}, askEvery: 4, reverse: false},
+		{name: "concurrent-6x40-mixed-pass", mode: ModePass, senders: 6, burst: 40, sizes: mixed, askEvery: 7, reverse: true, twoTargets: true},
+		{name: "concurrent-6x40-mixed-rand64k", mode: ModeRand, randMax: 65536, senders: 6, burst: 40, sizes: mixed, askEvery: 9, reverse: true, twoTargets: true},
+		{name: "concurrent-8x30-mixed-64k", mode: Mode64K, senders: 8, burst: 30, sizes: mixed, askEvery: 0, reverse: false, twoTargets: true},
 		{name: "slow-sender-2x60", mode: ModeStraddle, senders: 2, burst: 60, sizes: small, askEvery: 3, gap: 300 * time.Microsecond, reverse: true},
 	}
 	if thorough {
@@ -477,6 +645,7 @@ func (h *H) runFrame() {
 	h.exactLimit(A, B)
 	h.normalize()
 	h.handshakeSplit(A, B)
+	h.directRound(mixed)
 	names := make([]string, 0, len(rounds))
 	for _, rc := range rounds {
 		names = append(names, rc.name)
